@@ -115,7 +115,14 @@ class Replica(object):
     def _advance(self, tape, n, method):
         chunk = tape[self.pos:self.pos + n]
         if method == 'run' and hasattr(self.sim, 'run'):
-            self.sim.run([dict(c) for c in chunk])
+            # every step's mapping in an insertion order of its own (a mapping has no order)
+            steps = []
+            for k, c in enumerate(chunk):
+                items = list(c.items())
+                rot = (self.pos + k) % max(1, len(items))
+                items = items[rot:] + items[:rot]
+                steps.append(dict(reversed(items) if (self.pos + k) % 2 else items))
+            self.sim.run(steps)
         elif method == 'multi':
             names = list(chunk[0].keys())
             if names:
